@@ -16,6 +16,7 @@ CODES = {
     36: "spec-psh-differs",
     30: "spec-flow-equivalence",
     41: "gro-udp-noncandidate-overtaken",
+    42: "gro-udp-skipped-datagram-overtaken",
     40: "spec-udp-order",
     51: "spec-descriptor",
     52: "spec-length-fields",
@@ -36,7 +37,7 @@ class Prop:
             "reserved-bit/traffic-class/hop-limit deviations, option sets, windows, ack changes, fragments, IPv4 options, "
             "length-field mismatches, bad checksums; UDP likewise incl. zero checksum; capacities 65535, 65535+offset, a few "
             "segments of room, exactly the packet, and the boundary cap-2*offset = merged length +-1; offsets 10..100; "
-            "canUDPGRO on/off; invalid-offset error returns; plus 5 dedicated finding scenarios and 3 fixed batches. "
+            "canUDPGRO on/off; invalid-offset error returns; differing IPv6 flow labels within a 5-tuple, capacities of 128 KiB, PSH with prepends, stale bytes in front of every packet; plus the 4 regression scenarios of the repaired defects, the scenario of the known finding (UDP order) and 3 fixed batches. "
             "non-trivial = at least one packet coalesced and at least one not; distinct by content hash")
     assumptions = [
         "theorem scope: buffer capacity <= 65535 + 2*offset (see finding gro-coalesce-past-65535-with-large-cap), offset >= 10, no empty packet",
@@ -72,8 +73,7 @@ class Prop:
         args = ["-seed", str(seed), "-n", str(n), "-shards", str(shards), "-out", self.dir,
                 "-corpus", os.path.join(vlib.ROOT, "corpus", "C16")]
         if os.environ.get("C16_NO_FINDINGS"):
-            # used when trying the check against modified trees: the dedicated finding scenarios would
-            # otherwise use up the engine's three reports per run
+            # leaves out the scenario of the known finding gro-udp-noncandidate-overtaken
             args.append("-no-findings")
         return self._run_go(args)
 
@@ -119,7 +119,7 @@ class Prop:
 
     def shrink_candidates(self, case):
         # the dedicated finding scenarios are minimal by construction
-        if case.get("gen", "").startswith("finding/"):
+        if case.get("gen", "").startswith(("finding/", "regression/")):
             return
         pk = case["in"]
         n = len(pk)
